@@ -202,6 +202,7 @@ pub fn check_consistency(chain: &Blockchain, store: &mut Store, gp: u64) -> Vec<
     let ledger = store.ledger(&tip_hash);
     let mut missing = 0;
     let mut extra = 0;
+    let mut extra_in_window = 0;
     let mut example = String::new();
     for (k, o) in ledger.utxo.iter() {
         if !ledger.in_window(o, gp) {
@@ -226,6 +227,9 @@ pub fn check_consistency(chain: &Blockchain, store: &mut Store, gp: u64) -> Vec<
             let block_id = u64::from_be_bytes(k[33..41].try_into().unwrap());
             // out-of-window keys may only be a subset of the reference; in-window must be equal
             extra += 1;
+            if block_id >= ledger.tip_id.saturating_sub(gp) {
+                extra_in_window += 1;
+            }
             if example.is_empty() {
                 example = format!("extra key of {} created in block {} amount {}", short(&k[0..33]), block_id, u64::from_be_bytes(k[50..58].try_into().unwrap()));
             }
@@ -233,7 +237,16 @@ pub fn check_consistency(chain: &Blockchain, store: &mut Store, gp: u64) -> Vec<
     }
     if missing > 0 || extra > 0 {
         out.push(Finding {
-            clause: if missing > 0 && extra > 0 { "utxo-missing-and-extra" } else if missing > 0 { "utxo-missing" } else { "utxo-extra" },
+            clause: if missing > 0 && extra > 0 {
+                "utxo-missing-and-extra"
+            } else if missing > 0 {
+                "utxo-missing"
+            } else if extra_in_window == 0 {
+                // only entries older than the window, which no transaction can spend any more
+                "utxo-extra-outside-window-only"
+            } else {
+                "utxo-extra"
+            },
             detail: format!("spendable set differs from the replay of the tip's ancestry: {} missing, {} extra ({})", missing, extra, example),
         });
     }
